@@ -124,6 +124,18 @@ class H:
             return a.view(SymArray)
         return np.array(vals, dtype=float)
 
+    def integer(self, name, lo, hi):
+        self.kinds[name] = "int"
+        self.ranges[name] = (lo, hi)
+        if self.sym:
+            t = z3.Int(name)
+            self.decl[name] = t
+            self.E.assume(z3.And(t >= lo, t <= hi))
+            return SR(z3.ToReal(t))
+        v = int(round(float(self.inputs[name]))) if self.inputs is not None else self.rng.randint(lo, hi)
+        self.decl[name] = v
+        return v
+
     def boolean(self, name):
         self.kinds[name] = "bool"
         if self.sym:
@@ -171,7 +183,7 @@ class H:
 
     def generator(self, seed):
         """a fresh generator seeded with `seed` (sym: generator token with the documented contract)"""
-        return stubs.default_rng(seed) if self.sym else np.random.default_rng(seed)
+        return stubs.default_rng(seed) if self.sym else np.random.default_rng(int(seed))
 
     # ------------------------------------------------------------------ checks
     def _model_inputs(self, m):
@@ -220,6 +232,8 @@ class H:
                     if self.kinds[name] == "real":
                         d = 0.05 * (1 + abs(v))
                         lits.append(z3.Or(t > sym.rterm(v + d), t < sym.rterm(v - d)))
+                    elif self.kinds[name] == "int":
+                        lits.append(t != int(v))
                     else:
                         lits.append(t != z3.BoolVal(bool(v)))
                 if not lits:
@@ -314,7 +328,7 @@ class H:
     def reach(self, label="reach"):
         """reachability witness: the path up to here must be feasible"""
         if self.sym:
-            r = self.E.feasible()
+            r = self.E.feasible(quick=True)
             self.results.append((label, "witness" if r == "sat" else ("vacuous" if r == "unsat" else "witness_unknown")))
         else:
             self.results.append((label, "ok"))
